@@ -90,5 +90,6 @@ def _raw_slot(out: str) -> bool:
     """does the output carry the parenthesised part (or the whole operand) unsplit?"""
     import re as _re
     s = _re.sub(r"split\([^)]*\)\|OP>,','\)\[\d\]|split\(OP,','\)\[\d\]|split\(M<[^>]*>,','\)\[\d\]", "PIECE", out)
-    s = s.replace("(OP minus M<\\([^\\)]*\\)|OP>)", "OUTSIDE")
+    from ..normflow import M as _M
+    s = s.replace(f"(OP minus {_M})", "OUTSIDE")
     return "OP" in s or "M<" in s
